@@ -165,6 +165,8 @@ def _load_rewritten(repo, pkgname="peg_parser", only=MODS):
             mod.__dict__["__vjoin__"] = chars.vjoin
             mod.__dict__["__vmeth__"] = chars.vmeth
             mod.__dict__["print"] = _quiet_print
+            from . import filemodel
+            mod.__dict__["open"] = filemodel.sym_open
             sys.modules[f"{pkgname}.{m}"] = mod
             setattr(pkg, m, mod)
             exec(code, mod.__dict__)
